@@ -5,10 +5,10 @@ package main
 
 import (
 	"fmt"
-	"os"
 	"go/ast"
 	"go/token"
 	"go/types"
+	"os"
 	"sort"
 	"strings"
 )
@@ -1326,7 +1326,7 @@ func runTermination(p *Prog, r *Report) {
 		}
 		for _, c := range orderS {
 			a := bySite[c]
-			if ex, ok := termExceptions[a.f.Name+"|"+a.cons]; ok {
+			if ex, ok := termExceptions[a.f.Name+"|"+lastSel(c.Fun)]; ok {
 				r.Add("E14.descent", a.f.Name, a.cons, p.Pos(c), Excepted, ex, true)
 				continue
 			}
@@ -1406,7 +1406,7 @@ func runTermination(p *Prog, r *Report) {
 }
 
 var termExceptions = map[string]string{
-	"decoder.validationWalker.Visit|recursive call v.Visit": "interface dispatch over-approximation: vw.validators holds the validators of PathContext.Validators (package validator and user-supplied ones); validationWalker is unexported, implements validator.Validator only by coincidence of signature and is constructed solely as the walker argument of walker.Walk (premise re-checked: E14.walker-not-a-validator)",
+	"decoder.validationWalker.Visit|Visit": "interface dispatch over-approximation: vw.validators holds the validators of PathContext.Validators (package validator and user-supplied ones); validationWalker is unexported, implements validator.Validator only by coincidence of signature and is constructed solely as the walker argument of walker.Walk (premise re-checked: E14.walker-not-a-validator)",
 }
 
 // runLoopProgress: every `for cond {}` loop (non-range) has a loop variable compared with a
